@@ -379,40 +379,88 @@ func checkRegistryEdits(c *Ctx, p *Prog, R *BusRoles, rule string) {
 			v := ret.Results[0]
 			// through a named-result cell?
 			v = loadThroughLocal(v)
-			// len(registry[k]) directly, or through helpers of the package that return it
-			var isCount func(v ssa.Value, d int) bool
-			isCount = func(v ssa.Value, d int) bool {
-				v = loadThroughLocal(stripConv(v))
-				call, ok := v.(*ssa.Call)
-				if !ok || d > 3 {
-					return false
-				}
-				if bi, ok := call.Common().Value.(*ssa.Builtin); ok {
-					if bi.Name() != "len" {
-						return false
+			// len(registry[k]) directly, or through helpers of the package that return it, or
+			// through a view function handed to a helper that applies it to the lookup:
+			// evaluated with parameters standing for the arguments
+			type bindT map[*ssa.Parameter]ssa.Value
+			var evalCount func(v ssa.Value, bd bindT, d int) string
+			resolveV := func(v ssa.Value, bd bindT) ssa.Value {
+				for i := 0; i < 6; i++ {
+					v = loadThroughLocal(stripConv(v))
+					pr, ok := v.(*ssa.Parameter)
+					if !ok {
+						break
 					}
-					_, isLk := R.isRegistryLookup(call.Common().Args[0])
-					return isLk
+					a, ok := bd[pr]
+					if !ok {
+						break
+					}
+					v = a
 				}
-				rs := ix.Returned(call, 0)
-				if len(rs) == 0 {
-					return false
+				return v
+			}
+			evalFn := func(g *ssa.Function, args []ssa.Value, bd bindT, d int) string {
+				if g == nil || len(g.Blocks) == 0 || PkgOf(g) != PkgBus && (g.Parent() == nil || PkgOf(outermost(g)) != PkgBus) {
+					return ""
 				}
-				for _, r := range rs {
-					if !isCount(r, d+1) {
-						return false
+				nb := bindT{}
+				for k, v := range bd {
+					nb[k] = v
+				}
+				for i, prm := range g.Params {
+					if i < len(args) {
+						nb[prm] = resolveV(args[i], bd)
 					}
 				}
-				return true
-			}
-			good := false
-			if name == "HasHandlers" {
-				if bo, ok := v.(*ssa.BinOp); ok && (bo.Op == token.GTR || bo.Op == token.NEQ) && isConstInt(bo.Y, 0) {
-					good = isCount(bo.X, 0)
+				res := ""
+				for _, ret := range returnsOf(g) {
+					if len(ret.Results) != 1 {
+						return ""
+					}
+					r := evalCount(resolveResult(ret, 0), nb, d+1)
+					if r == "" || (res != "" && r != res) {
+						return ""
+					}
+					res = r
 				}
-			} else {
-				good = isCount(v, 0)
+				return res
 			}
+			evalCount = func(v ssa.Value, bd bindT, d int) string {
+				if d > 4 {
+					return ""
+				}
+				v = resolveV(v, bd)
+				switch x := v.(type) {
+				case *ssa.BinOp:
+					if (x.Op == token.GTR || x.Op == token.NEQ) && isConstInt(x.Y, 0) && evalCount(x.X, bd, d+1) == "count" {
+						return "count>0"
+					}
+					return ""
+				case *ssa.Call:
+					if bi, ok := x.Common().Value.(*ssa.Builtin); ok {
+						if bi.Name() != "len" {
+							return ""
+						}
+						if _, isLk := R.isRegistryLookup(resolveV(x.Common().Args[0], bd)); isLk {
+							return "count"
+						}
+						return ""
+					}
+					if sc := x.Common().StaticCallee(); sc != nil {
+						if o := sc.Origin(); o != nil {
+							sc = o
+						}
+						return evalFn(sc, x.Common().Args, bd, d)
+					}
+					// a function value: a parameter bound to a closure / function of the package
+					if g := funcOfValue(resolveV(x.Common().Value, bd)); g != nil {
+						return evalFn(g, x.Common().Args, bd, d)
+					}
+				}
+				return ""
+			}
+			got := evalCount(v, bindT{}, 0)
+			good := (name == "HasHandlers" && got == "count>0") || (name == "HandlerCount" && got == "count")
 			if !good && len(b.Preds) > 0 {
 				okAll = false
 			} else if !good && b.Comment == "recover" {
